@@ -133,7 +133,7 @@ HEADERS = [
 
 # ------------------------------------------------------------------------- layouts
 LAYOUTS = ['csr', 'csc', 'unsorted', 'unsorted_input', 'stored0_input', 'coo_input', 'filtered', 'TT',
-           'subsample_full']
+           'stored0_matrix_data', 'subsample_full']
 
 
 def build(spec):
@@ -175,6 +175,16 @@ def build(spec):
                 return None
             t2.table_id, t2.generated_by = kw['table_id'], kw['generated_by']
             t = t2
+        return t
+    if lay == 'stored0_matrix_data':
+        # the one route by which a caller can still leave an explicitly stored zero behind: overwriting an
+        # existing entry of the exposed matrix (the constructor, transform and subsample prune theirs)
+        nz = np.argwhere(D != 0)
+        if len(nz) == 0:
+            return None
+        t = Table(D, oids, sids, omd, smd, **kw)
+        i, j = (int(x) for x in nz[len(nz) // 2])
+        t.matrix_data[i, j] = 0.0
         return t
     if lay == 'unsorted':
         rs = sids[::-1]
